@@ -93,6 +93,12 @@ def generate(rng, tier, idx):
     if how == 'fit':
         run['fit_data'] = {'kind': 'pobs', 'n': rng.randint(150, 400), 'tau': tau,
                            'seed': rng.randrange(2**31)}
+    if not edge_clayton and rng.random() < 0.06:
+        # theta given as a Python int (a hand-written dict / JSON file yields ints)
+        run.update({'how': 'param_int', 'theta_int': rng.choice([1, 2, 3, 5] if fam != 'Gumbel'
+                                                              else [2, 3, 4])})
+        run.pop('fit_data', None)
+        run['ops'].append({'op': 'sample', 'n': 2000})
     if edge_clayton:
         # tau == 0 is outside Clayton's domain (theta in (0, inf)): the object may refuse to
         # sample, but a sample it does return has to be a sample of the model it claims to be
@@ -153,6 +159,9 @@ def _build(run, ctx):
         if model.tau is None or not (abs(model.tau) <= 0.8) or abs(model.tau) < 0.01:
             ctx.probes['fitted_tau_outside_quantifier'] += 1
             return None, fam
+    elif run['how'] == 'param_int':
+        model.theta = int(run['theta_int'])
+        model.tau = refs.tau_of_theta(fam, float(model.theta))
     elif run['how'] == 'param_numpy':
         model.tau = np.float64(run['tau'])
         model.theta = np.float64(model.compute_theta())
